@@ -106,6 +106,9 @@ func underConstruction(info *types.Info, fd *ast.FuncDecl, e ast.Expr) bool {
 	}
 	init := initOf(info, fd, id)
 	if init == nil {
+		init = freshDefinitionBefore(info, fd, se, v)
+	}
+	if init == nil {
 		return false
 	}
 	init = ast.Unparen(init)
@@ -129,6 +132,111 @@ func underConstruction(info *types.Info, fd *ast.FuncDecl, e ast.Expr) bool {
 		}
 	}
 	return false
+}
+
+// freshDefinitionBefore: the local v has several definitions in fd (the style that declares every
+// local at the head of the function and assigns it where it is needed).  The write through se lies
+// in a statement of some list; an earlier statement of the same list is `v = E`, and the
+// statements in between mention v only as the base of field writes whose values do not mention
+// it: that assignment is the definition in force at se, and what it made has not left the
+// function.  No function literal of fd mentions v.
+func freshDefinitionBefore(info *types.Info, fd *ast.FuncDecl, se *ast.SelectorExpr, v *types.Var) ast.Expr {
+	if fd == nil || fd.Body == nil {
+		return nil
+	}
+	captured := false
+	ast.Inspect(fd.Body, func(x ast.Node) bool {
+		if fl, ok := x.(*ast.FuncLit); ok {
+			if mentionsObj(info, fl, v) {
+				captured = true
+			}
+			return false
+		}
+		return !captured
+	})
+	if captured {
+		return nil
+	}
+	var found ast.Expr
+	fieldWriteOnly := func(s ast.Stmt) bool {
+		as, ok := s.(*ast.AssignStmt)
+		if !ok || as.Tok != token.ASSIGN {
+			return false
+		}
+		for _, l := range as.Lhs {
+			ls, ok := ast.Unparen(l).(*ast.SelectorExpr)
+			if !ok {
+				if mentionsObj(info, l, v) {
+					return false
+				}
+				continue
+			}
+			if b, ok := ast.Unparen(ls.X).(*ast.Ident); !ok || info.Uses[b] != types.Object(v) {
+				if mentionsObj(info, l, v) {
+					return false
+				}
+			}
+		}
+		for _, rh := range as.Rhs {
+			if mentionsObj(info, rh, v) {
+				return false
+			}
+		}
+		return true
+	}
+	search := func(list []ast.Stmt) {
+		at := -1
+		for i, s := range list {
+			// by identity: the copies the inliner makes share one position
+			inside := false
+			ast.Inspect(s, func(x ast.Node) bool {
+				if x == ast.Node(se) {
+					inside = true
+				}
+				return !inside
+			})
+			if inside {
+				at = i
+				break
+			}
+		}
+		if at < 0 || found != nil {
+			return
+		}
+		// the write itself must be a plain field write (not nested in a compound statement that
+		// could be a loop around the list)
+		if !fieldWriteOnly(list[at]) {
+			return
+		}
+		for j := at - 1; j >= 0; j-- {
+			if !mentionsObj(info, list[j], v) {
+				continue
+			}
+			if as, ok := list[j].(*ast.AssignStmt); ok && as.Tok == token.ASSIGN && len(as.Lhs) == 1 && len(as.Rhs) == 1 {
+				if lid, ok := as.Lhs[0].(*ast.Ident); ok && info.Uses[lid] == types.Object(v) && !mentionsObj(info, as.Rhs[0], v) {
+					found = as.Rhs[0]
+					return
+				}
+			}
+			if !fieldWriteOnly(list[j]) {
+				return
+			}
+		}
+	}
+	ast.Inspect(fd.Body, func(x ast.Node) bool {
+		switch b := x.(type) {
+		case *ast.FuncLit:
+			return false
+		case *ast.BlockStmt:
+			search(b.List)
+		case *ast.CaseClause:
+			search(b.Body)
+		case *ast.CommClause:
+			search(b.Body)
+		}
+		return found == nil
+	})
+	return found
 }
 
 func isSyncType(t types.Type) bool {
